@@ -34,19 +34,32 @@ func New[T any](ctx context.Context, cap int) (<-chan T, chan<- T) {
 
 	go func() {
 		defer close(eg)
-		defer close(in)
+
+		// delivers everything accepted so far
+		flush := func() {
+			for mq.head != nil {
+				eg <- head(mq)
+				deq(mq)
+			}
+		}
 
 		for {
 			select {
 			case <-ctx.Done():
-				for mq.head != nil {
-					eg <- head(mq)
-					deq(mq)
+				// stop accepting values but keep those already accepted,
+				// including the ones parked in the buffer of the channel
+				shut(in)
+				for x := range in {
+					v := x
+					enq(&v, mq)
 				}
+				flush()
 				return
 
 			case x, ok := <-in:
 				if !ok {
+					// the sender has closed the channel: end of stream
+					flush()
 					return
 				}
 				enq(&x, mq)
@@ -58,4 +71,10 @@ func New[T any](ctx context.Context, cap int) (<-chan T, chan<- T) {
 	}()
 
 	return eg, in
+}
+
+// shut closes the channel unless the sender has already closed it
+func shut[T any](ch chan T) {
+	defer func() { _ = recover() }()
+	close(ch)
 }
